@@ -70,6 +70,12 @@ def run(ck):
                       "facts": {"base": p["base"], "nested": False, "retry": any(l["t"] == "retry" for l in p["layers"]),
                                 "family": "c06" if i % 2 else "c11"}})
     pairs = ck.run_and_validate(tasks, TRACE)
+    # directed: shutdown(wait=True) at every point of a freshly woken worker-loop iteration (a lost wake-up ends in a
+    # join that never returns)
+    swept = c11.directed_shutdown_tasks(quick)
+    for t in swept:
+        t["facts"] = dict(t["facts"], nested=False, retry=t["facts"]["types"] == ["retry"], family="c11d")
+    ck.run_and_validate(swept, TRACE, nontrivial=lambda t, r: True)
     # the lock programs of those executions, interleaved exhaustively by TLC (spec/LockCases.tla); candidate cycles
     # are steered towards in the real code and only a deadlock that really happens there is reported
     ck.lock_cycles(pairs, TRACE)
